@@ -50,6 +50,10 @@ def cases(tier, seed):
                 c["store"] = ["files", "files+levels"][(hi // 6) % 2]
             if (hi + k) % 6 == 5:     # ... or is reached through `<symlinked directory>/../plt00100`
                 c["reach"] = True
+            if (hi + k) % 6 == 3:     # level directories under another prefix than the default
+                c["level_prefix"] = ["Lev_", "amr_level_"][(hi // 6) % 2]
+            if (hi + k) % 6 == 0:     # file numbers of five and six digits at one level
+                g["file_id_base"] = "mixed"
             cs.append(c)
     for k in range(2 if tier == "quick" else 8):     # 2D colander chains
         g = dict(seed=rng.randrange(10 ** 9), ndims=2, nlevels=2 + k % 2, bf=4, names=["f0", "f1", "f2"], base_blocks=(1, 3))
@@ -119,7 +123,10 @@ def run_case(case, work, rec):
     else:
         m = gen.gen_model(**case["gen"])
         cur = os.path.join(work, "plt00100")
-        gen.write_plotfile(m, cur, ref_ratio_extra=rng.choice([0, 1]), trailing_blank=rng.random() < 0.7)
+        gen.write_plotfile(m, cur, ref_ratio_extra=rng.choice([0, 1]), trailing_blank=rng.random() < 0.7,
+                           level_prefix=case.get("level_prefix", "Level_"))
+        if case.get("level_prefix"):
+            rec.count("start_with_other_level_prefix")
         if case.get("store"):
             workload.to_store(cur, level_links="levels" in case["store"])
             rec.count("start_with_linked_binary_files")
